@@ -76,7 +76,7 @@ def run(ctx, F, cg):
     pops = [c for c in b.calls() if c.path.rsplit("::", 1)[-1] in ("pop", "remove", "swap_remove", "truncate") and "node::Node" in c.full]
     clears = [c for c in b.calls() if c.path.rsplit("::", 1)[-1] in ("clear", "take", "drain", "replace") and "node::Node" in c.full]
     oks = [i for i, j, pl, rv, line, exp in b.stmts() if pl[0] == 0 and not pl[1] and rv[0] == "agg" and rv[1].endswith("Result::Ok")]
-    if clears and all(b.must_pass(0, o, {c.bb for c in clears}) for o in oks):
+    if clears and all(b.must_pass(0, o, {c.bb for c in clears}) for o in oks) and b.success_passes(0, {c.bb for c in clears}):
         ctx.ok("R07c", "delete_node|chain-emptied", "version chain emptied with %s on every path to Ok" % clears[0].path.rsplit("::", 1)[-1])
     elif pops:
         ctx.violation("R07c", "delete_node|pops-one-version", where(dn, pops[0].line), "delete_node removes only the newest version (%s): after SET at version v2 and DELETE, get_node still finds the v1 entry, and the recycled id inherits it" % pops[0].path.rsplit("::", 1)[-1])
